@@ -834,8 +834,8 @@ impl Engine for BevyEngine {
     fn properties(&self) -> &'static [&'static str] {
         &["C18", "C19", "C08", "C20"]
     }
-    fn generate(&self, rng: &mut Rng, property: &str, _tier: Tier) -> BScn {
-        gen::generate(rng, property)
+    fn generate(&self, rng: &mut Rng, property: &str, tier: Tier) -> BScn {
+        gen::generate(rng, property, tier == Tier::Thorough)
     }
     fn execute(&self, scn: &BScn, property: &str) -> RunOutcome {
         execute(scn, property)
